@@ -178,7 +178,8 @@ Section Safety.
       destruct (fn r' l') as [[x r2] l2]; unfold post in P;
       let P1 := fresh "Prok" in let P2 := fresh "Pfr" in let P3 := fresh "Plok" in let P4 := fresh "Pcr" in
       let P5 := fresh "Pfu" in let P6 := fresh "Pub" in let P7 := fresh "Pdp" in let P8 := fresh "Ppr" in
-      destruct P as (P1 & P2 & P3 & P4 & P5 & P6 & P7 & P8)
+      destruct P as (P1 & P2 & P3 & P4 & P5 & P6 & P7 & P8);
+      let Ha2 := fresh "Ha" in pose proof (avail_ok r2 P1) as Ha2
     end.
   (* close a goal [post ..] on a concrete final state from the facts in the context *)
   Ltac done_post :=
@@ -392,4 +393,50 @@ Section Safety.
         use (unflat_array_safe ft d Hnp Hnt) (unflat_array bs fx inner lf ft d).
         match goal with x : res items |- _ => destruct x end; go; done_post; rest.
     Qed.
+
+    (* DataUnflattenerReadLimiter(unflat, eLength) around unflat.ReadFlat(field) *)
+    Lemma field_window_safe tc elen d :
+      safe (fuel_ok lf) (fun r => 28 * d + avail r + 24) 0
+           (with_limit elen (sub_reader NOLIM (unflat_field bs fx inner lf tc d))).
+    Proof.
+      pose proof HL as HL'. intros r l Hr Hl; pose proof (avail_ok r Hr) as Ha.
+      unfold with_limit. destruct (limited_rok r elen Hr) as [Hrl Hu]. rewrite Hu.
+      unfold sub_reader. rewrite NOLIM_val. rcbn. avs.
+      match goal with |- context [N.min 4294967295 ?a] => replace (N.min 4294967295 a) with a by (unfold rok in *; lia) end.
+      use (unflat_field_safe tc d) (unflat_field bs fx inner lf tc d).
+      match goal with x : res repr |- _ => destruct x end; go; done_post; rest.
+    Qed.
+
+    Lemma entries_loop_safe k : (k <= lf)%nat -> forall i n pend d acc,
+      safe (fuel_ok k) (fun r => 28 * d + avail r + 12) 0 (entries_loop bs fx inner lf k i n pend d acc).
+    Proof.
+      pose proof HL as HL'. induction k as [|k IH]; intros Hk i n pend d acc r l Hr Hl; pose proof (avail_ok r Hr) as Ha;
+        cbn [entries_loop]; brk; try (fin; fail).
+      - fin. intro HF; unfold fuel_ok in HF; cbn in HF; lia.
+      - unfold bnd at 1.
+        use rd_lp_string_safe (rd_lp_string bs).
+        match goal with x : res bytes |- _ => destruct x as [name| | |] end; try (done_post; rest; fail).
+        specialize (Ppr name eq_refl).
+        prims. rewrite ?W_val. go; try (done_post; rest; fail).
+        all: destruct (flookup name acc) as [[tc' rp']|]; cbv beta iota zeta; go; try (done_post; rest; fail).
+        all: match goal with |- context [with_limit ?el (sub_reader NOLIM (unflat_field _ _ _ _ ?tcx ?dd))] =>
+               use (field_window_safe tcx el dd) (with_limit el (sub_reader NOLIM (unflat_field bs fx inner lf tcx dd))) end.
+        all: match goal with x : res repr |- _ => destruct x end; go; try (done_post; rest; fail).
+        all: match goal with |- context [entries_loop _ _ _ _ ?kk ?ii ?nn ?pp ?dd ?aa] =>
+               use (IH ltac:(lia) ii nn pp dd aa) (entries_loop bs fx inner lf kk ii nn pp dd aa) end.
+        all: done_post; rest.
+    Qed.
+
+    Lemma msg_level_safe d : safe (fuel_ok (S lf)) (fun r => 28 * d + avail r) 0 (msg_level bs fx inner lf d).
+    Proof.
+      pose proof HL as HL'. intros r l Hr Hl; pose proof (avail_ok r Hr) as Ha.
+      unfold msg_level. prims. rewrite ?W_val. cbv beta iota zeta. rcbn.
+      brk; cbv beta iota zeta; rcbn; avs.
+      all: match goal with |- context [if negb ?c then _ else _] => destruct c; cbn [negb] end; try (done_post; rest; fail).
+      all: go; try (done_post; rest; fail).
+      all: match goal with |- context [entries_loop _ _ _ _ ?kk ?ii ?nn ?pp ?dd ?aa] =>
+             use (entries_loop_safe kk (le_n kk) ii nn pp dd aa) (entries_loop bs fx inner lf kk ii nn pp dd aa) end.
+      all: match goal with x : res fields |- _ => destruct x end; go; try (done_post; rest; fail).
+      all: match goal with |- ?g => idtac "REM" g end.
+    Admitted.
   End LevelSafe.
